@@ -4,7 +4,7 @@
 use std::panic;
 
 use crate::rng::Rng;
-use rspack_sources::{MapOptions, ReplaceSource, Source, SourceMap, SourceMapSource, WithoutOriginalOptions};
+use rspack_sources::{MapOptions, OriginalSource, ReplaceSource, Source, SourceMap, SourceMapSource, WithoutOriginalOptions};
 
 fn run(text: &str, mappings: &str, ops: &[(u32, u32, String)], with_content: bool) -> Result<(), String> {
   let (text, mappings, ops) = (text.to_string(), mappings.to_string(), ops.to_vec());
@@ -65,4 +65,41 @@ pub fn replay(w: &str) -> i32 {
     if let Some(t) = part.strip_prefix("ops=") { for x in t.split('_').filter(|x| !x.is_empty()) { let f: Vec<&str> = x.split(':').collect(); ops.push((f[0].parse().unwrap(), f[1].parse().unwrap(), unhex(f.get(2).copied().unwrap_or("")))); } }
   }
   match run(&text, &map, &ops, wc) { Err(p) => { println!("REPRODUCED panic: {p}"); 1 } Ok(()) => { println!("NOT-REPRODUCED"); 0 } }
+}
+
+// ---- OriginalSource tokenizer (helpers::PotentialTokens) on arbitrary UTF-8 text: any panic ----
+fn run_tokens(text: &str) -> Result<(), String> {
+  let text = text.to_string();
+  panic::catch_unwind(move || {
+    let s = OriginalSource::new(text.clone(), "a.js");
+    let _ = s.map(&MapOptions::default());
+    let _ = s.map(&MapOptions::new(false));
+    let mut r = ReplaceSource::new(OriginalSource::new(text, "a.js"));
+    r.insert(0, "x", None);
+    let _ = r.map(&MapOptions::default());
+  }).map_err(|e| e.downcast_ref::<String>().cloned().or_else(|| e.downcast_ref::<&str>().map(|s| s.to_string())).unwrap_or_default())
+}
+pub fn search_tokens(args: &[String]) -> i32 {
+  panic::set_hook(Box::new(|_| {}));
+  let seed: u64 = args.first().and_then(|s| s.parse().ok()).unwrap_or(1);
+  let budget: u64 = args.get(1).and_then(|s| s.parse().ok()).unwrap_or(50_000);
+  let mut r = Rng(seed.wrapping_mul(0x9E3779B97F4A7C15) | 1);
+  let alpha: Vec<char> = "ab;{} \t\r\n\u{e9}\u{a9}\u{20ac}\u{1F600}\u{7f}\u{80}".chars().collect();
+  for i in 0..budget {
+    let n = r.below(9);
+    let text: String = (0..n).map(|_| r.pick(&alpha)).collect();
+    println!("CASE {}", hex(&text)); // progress marker: a hang shows up as a timeout after this line
+    if let Err(p) = run_tokens(&text) {
+      println!("WITNESS kind=tokens input={}", hex(&text));
+      println!("DETAIL OriginalSource::new({text:?}, \"a.js\").map(..) panicked: {p}");
+      println!("TRIED {}", i + 1);
+      return 1;
+    }
+  }
+  println!("NO-WITNESS tried={budget}");
+  0
+}
+pub fn replay_tokens(w: &str) -> i32 {
+  panic::set_hook(Box::new(|_| {}));
+  match run_tokens(&unhex(w)) { Err(p) => { println!("REPRODUCED panic: {p}"); 1 } Ok(()) => { println!("NOT-REPRODUCED"); 0 } }
 }
